@@ -376,6 +376,9 @@ func oracleC03() *Result {
 	for _, s := range []string{"echo b\"a$x\";", "echo B\"{$x}\";"} {
 		tasks = append(tasks, Task{Oracle: "C03v", Cfg: "valid:binary-template", Src: []byte("<?php " + s), Tag: "literal-spelling"})
 	}
+	for _, s := range heredocLookalikes() {
+		tasks = append(tasks, Task{Oracle: "C03v", Cfg: "valid", Src: s, Tag: "heredoc-lookalike"})
+	}
 	for _, s := range validStmts {
 		tasks = append(tasks, Task{Oracle: "C03v", Cfg: "valid", Src: []byte("<?php " + s), Tag: "valid"})
 		tasks = append(tasks, Task{Oracle: "C03v", Cfg: "valid", Src: []byte("<?php\r" + strings.ReplaceAll(s, " ", "\r")), Tag: "valid-lone-CR"})
